@@ -1,6 +1,6 @@
 (* C15/Run.v — model evaluation for harness cases.
    retry:   [0 conf_retries [outcomes] cancel_wait]  ->  [result_code result_arg attempts [delays]]
-   handler: [1 cookie_equal herr]                   ->  [status dispatched retryable usage]
+   handler: [1 cookie_equal herr]                   ->  [status dispatched retryable usage [client view]]
    cache:   [2 expiry [ [want now tok_ok tok_id] ...]] -> [ [ok id called] ... ]
    outcome encoding: [0] success, [1 code] http, [2 class] error class, [3 retryable] token error, [4] usage *)
 From Relic Require Import Base.Prelude Base.Val Generated.C15_gen C15.Model.
@@ -44,5 +44,5 @@ Definition run (v : val) : val :=
     end
   else if k =? 1 then
     let '(status, disp, (r, u)) := handler (vbool (vnth 1 v)) (vherr (vnth 2 v)) in
-    VL [VZ status; of_bool disp; of_bool r; of_bool u]
+    VL [VZ status; of_bool disp; of_bool r; of_bool u; VL (out_outcome (client_view (vherr (vnth 2 v))))]
   else VL (cache_run (vz (vnth 1 v)) c_empty (vl (vnth 2 v))).
